@@ -80,6 +80,15 @@ impl Node {
             1 + self.children.as_ref().map_or(0, |c| c.iter().map(|x| x.depth()).max().unwrap_or(0))
         }
     }
+    /// largest sum of `num_splits` along a root-to-leaf path
+    fn max_path_splits(&self) -> usize {
+        if self.is_leaf() {
+            0
+        } else {
+            self.num_splits
+                + self.children.as_ref().map_or(0, |c| c.iter().map(|x| x.max_path_splits()).max().unwrap_or(0))
+        }
+    }
     fn shape_ok(&self) -> bool {
         if self.num_modifiers != self.num_splits + 1 {
             return false;
@@ -1326,13 +1335,51 @@ fn op_mjs(ctx: &mut Ctx, op: &str, it: &mut std::str::SplitWhitespace) -> Option
         Caught::Ok(ids) => {
             oracle_mj(ctx, dim, &coords, &ws, &ids, parts, maxiter, in_quant, &mut verdicts);
             if code >= 12 {
-                // subnormal weights: a separate cause signature (the products total * modifier are
-                // rounded on the subnormal grid; with weights of a few ulps the thresholds lose
-                // their fractional part)
+                // Subnormal weights. KNOWN finding K7 is ONLY the ulp-grid case: the unit is one
+                // ulp of the subnormal grid (5e-324) and every weight is at most 2^10 units, so the
+                // products `total * modifier` lose their fractional part (each is rounded to a whole
+                // number of units, error <= 1/2 unit). What that rounding can explain is bounded:
+                // a non-last slab misses its share by less than wmax + 1/2 unit, the last slab of a
+                // node with s splits by less than wmax + s/2 units, so a part deviates from
+                // total/parts by less than max_iter*wmax + S/2 units, S = the largest sum of
+                // num_splits along a root-to-leaf path of the scheme. Within
+                //     2*|parts*W - total| < parts*(2*(max_iter+1)*wmax + S + 1)      for EVERY part
+                // the imbalance is `mj-imbalance@subnormal-ulp-grid` (known); anything beyond it
+                // (e.g. a slab that is not split at all), any other unit (1e-310, 2^-1040) and
+                // any weight above 2^10 ulps is an ordinary `mj-imbalance@subnormal`: the unchanged
+                // code passes those.
+                let wmax = ws.iter().copied().max().unwrap_or(0) as i128;
+                let ulp_grid = code == 13 && wmax <= 1 << 10;
+                let explained = ulp_grid && {
+                    let s_path = catch(|| coupe::verif::multi_jagged::partition_scheme(parts, maxiter));
+                    match s_path {
+                        Caught::Ok(txt) => match parse_scheme(&txt) {
+                            Some(root) => {
+                                let sp = root.max_path_splits() as i128;
+                                let total: i128 = ws.iter().map(|&w| w as i128).sum();
+                                let mut loads = vec![0i128; parts];
+                                for (p, &i) in ids.iter().enumerate() {
+                                    if i < parts {
+                                        loads[i] += ws[p] as i128;
+                                    }
+                                }
+                                let bound = parts as i128 * (2 * (maxiter as i128 + 1) * wmax + sp + 1);
+                                loads.iter().all(|&l| 2 * (parts as i128 * l - total).abs() < bound)
+                            }
+                            None => false,
+                        },
+                        _ => false,
+                    }
+                };
                 for v in verdicts.iter_mut() {
                     if v.0 == "mj-imbalance" {
-                        v.0 = "mj-imbalance@subnormal-unit";
-                        v.1 = format!("weights in units of {}: {}", name, v.1);
+                        if explained {
+                            v.0 = "mj-imbalance@subnormal-ulp-grid";
+                            v.1 = format!("weights of at most 2^10 ulps of the subnormal grid (unit {}), deviation within threshold rounding: {}", name, v.1);
+                        } else {
+                            v.0 = "mj-imbalance@subnormal";
+                            v.1 = format!("weights in units of {}{}: {}", name, if ulp_grid { ", beyond what threshold rounding on the ulp grid explains" } else { "" }, v.1);
+                        }
                     }
                 }
             }
